@@ -16,7 +16,7 @@ NoMeta     == [k \in MetaKeys |-> "-"]
 Situations == {"none", "notInstalled", "tooLow", "noCap", "TI", "REV", "both"}
 Verdicts   == {"success", "failure", "missing"}
 
-Raw == [api : {"Verify"}, sel : {"ok"}, skip : {FALSE}, env : {BenignEnv}, desc : {BenignDesc},
+Raw == [api : {"Verify", "VerifyBlob"}, sel : {"ok"}, skip : {FALSE}, env : {BenignEnv}, desc : {BenignDesc},
         required : {NoMeta}, signed : {NoMeta},
         level : ReachableMaps,
         anchor : {"found", "notFound", "loadError"}, identity : {"match", "noMatch"},
@@ -26,6 +26,7 @@ Raw == [api : {"Verify"}, sel : {"ok"}, skip : {FALSE}, env : {BenignEnv}, desc 
 
 (* canonical representatives: dimensions that cannot influence anything are pinned *)
 Canonical(in) ==
+  /\ (in.api = "VerifyBlob" => in.plugin = "none" /\ in.crit = "none")              \* blob verification: the native rows of the table
   /\ ("TI"  \notin Asked(in) => in.verdictTI  = "success")
   /\ ("REV" \notin Asked(in) => in.verdictREV = "success")
   /\ (~PluginRuns(in) => in.crit # "processed")
